@@ -226,7 +226,9 @@ ASK_PRE = [C("ask.pre.lock_free_and_unpoisoned", "C12", "!old(w).lock_held() && 
 
 
 def _ask_t(features):
-    return dict(ret="result", requires=ASK_PRE, ensures=[
+    # the heaviest proof of the lot (rule-T cut over the tracked-ask log): give the solver room, so that harmless edits of the
+    # surrounding text cannot push it over the default resource limit (an exceeded limit is reported as undecided, never as an alarm)
+    return dict(ret="result", requires=ASK_PRE, attrs=["#[verifier::rlimit(150)]"], ensures=[
         C("ask_with_timeout.relation", "C01 C03 C10 C13 C15",
           "r_ask_timeout::<M, T::Reply>(self.hv(), msg_id(msg), timeout, *old(w), *final(w), result, \"ask\"@)"),
         C("ask_with_timeout.dead_letters", "C13", "r_dl::<M>(self.id, old(w).log(), final(w).log(), dl_reason_ask::<T::Reply>(result), \"ask\"@)"),
